@@ -564,7 +564,15 @@ func (s *Sim) checkConvergence(c *Client) {
 			continue
 		}
 		if v.Deleted {
-			c.violate("C03", "d", "delete-lost", "client %s still holds %s as live although the service deleted it and everything has been delivered", c.Name, rid)
+			shape := "delete-lost"
+			if s.loadDeferredByQueryEvent(v) {
+				// known finding F-28: the answer to a get request that arrives while a
+				// query event is being handled waits until the query requests are
+				// answered; if one of those answers deletes the resource, the older
+				// get answer then brings it back
+				shape = "delete-lost-load-deferred-by-query-event"
+			}
+			c.violate("C03", "d", shape, "client %s still holds %s as live although the service deleted it and everything has been delivered", c.Name, rid)
 			continue
 		}
 		if v.Dirty {
@@ -890,6 +898,41 @@ func (s *Sim) oracleEndOfRun() {
 	}
 	s.checkGauges(true)
 	s.checkIntervals(false)
+}
+
+// loadDeferredByQueryEvent: the last get answer with data for variant v was
+// given before the deletion was announced, but reached the gateway while a
+// query request of the same resource was outstanding.
+func (s *Sim) loadDeferredByQueryEvent(v *Variant) bool {
+	delStep := -1
+	for _, e := range v.Stream {
+		if e.Kind == "delete" {
+			delStep = e.EmitStep
+		}
+	}
+	if delStep < 0 {
+		return false
+	}
+	s.mu.Lock()
+	defer s.mu.Unlock()
+	res := s.W.Res[v.Name]
+	var last *Req
+	for _, q := range s.tr.reqs {
+		if q.Type == "get" && q.Name == v.Name && q.GotData && q.Delivered {
+			if n, ok := res.normalise(q.Query); ok && n == v.Query && (last == nil || q.DlvSeq > last.DlvSeq) {
+				last = q
+			}
+		}
+	}
+	if last == nil || last.AnsStep > delStep {
+		return false
+	}
+	for _, qq := range s.tr.reqs {
+		if qq.Type == "query" && qq.Name == v.Name && qq.Seq < last.DlvSeq && (!qq.Delivered || qq.DlvSeq > last.DlvSeq) {
+			return true
+		}
+	}
+	return false
 }
 
 // nonTrivial: the run exercised what the property under check is about (the
